@@ -303,11 +303,12 @@ func (p *McGroupStatusAnsPayload) UnmarshalBinary(data []byte) error {
 
 	var ansGroupMaskCount int
 	for i := range p.Status.AnsGroupMask {
-		if data[0]&(1<<uint8(i)) != 0 {
-			p.Status.AnsGroupMask[i] = true
+		p.Status.AnsGroupMask[i] = data[0]&(1<<uint8(i)) != 0
+		if p.Status.AnsGroupMask[i] {
 			ansGroupMaskCount++
 		}
 	}
+	p.Items = nil
 
 	p.Status.NbTotalGroups = (data[0] & 0x70) >> 4
 
@@ -662,6 +663,7 @@ func (p *McClassCSessionAnsPayload) UnmarshalBinary(data []byte) error {
 	p.StatusAndMcGroupID.DRError = data[0]&0x04 != 0
 	p.StatusAndMcGroupID.FreqError = data[0]&0x08 != 0
 	p.StatusAndMcGroupID.McGroupUndefined = data[0]&0x10 != 0
+	p.TimeToStart = nil
 
 	if !p.StatusAndMcGroupID.hasError() {
 		if len(data) < p.Size() {
@@ -830,6 +832,7 @@ func (p *McClassBSessionAnsPayload) UnmarshalBinary(data []byte) error {
 	p.StatusAndMcGroupID.DRError = data[0]&0x04 != 0
 	p.StatusAndMcGroupID.FreqError = data[0]&0x08 != 0
 	p.StatusAndMcGroupID.McGroupUndefined = data[0]&0x10 != 0
+	p.TimeToStart = nil
 
 	if !p.StatusAndMcGroupID.hasError() {
 		if len(data) < p.Size() {
